@@ -349,8 +349,13 @@ def call_result(fname, argnames):
     from mc import sweep
     s = _sweep_session()
     fn = dict(s.funcs)[fname]
-    o, args = s.call(fn, tuple(argnames))
+    # (a short wall clock: the big numbers of this pool make size
+    # arguments such as range(n) run out of it - not this check's matter)
+    o, args = s.call(fn, tuple(argnames), wall=0.25)
     return o
+
+
+_SEEN = set()
 
 
 def explore_results(chunk):
@@ -374,6 +379,11 @@ def explore_results(chunk):
                 continue
             hz = "pattern-slashes" if pattern_hazard(o[1]) else ""
             agg.cls(("result", o[1].type(), hz))
+            # one verdict per distinct (callee, deep kinds, text)
+            key = (fname, repr(core.from_value(o[1])))
+            if key in _SEEN:
+                continue
+            _SEEN.add(key)
             for law, expd, obs in result_faults(o[1]):
                 agg.violation(
                     {"law": law, "kind": o[1].type(), "hazard": hz,
